@@ -253,14 +253,18 @@ def _expand_worker(task):
     return ci, st, succ
 
 
-AUDIT_PAIRS = 240
+AUDIT_PAIRS = 240  # thorough tier; the quick tier audits AUDIT_PAIRS_QUICK merged histories
+AUDIT_PAIRS_QUICK = 32
+REPS_MAX = 30000
 FRESH_MAX_LEVEL = 2
 
 
 def _audit_worker(item):
-    """expand two different histories that share a canonical state with every event; observations must agree"""
+    """expand two different histories that share a canonical state with every event; observations must agree.
+    History b was merged away by the search, so what it shows is new: its violations are reported as such."""
     ci, config, path_a, blob_a, path_b, blob_b = item
     bad = []
+    viol = []
     n = 0
     try:
         evs = _H.full_events(pickle.loads(blob_a), config)
@@ -271,10 +275,15 @@ def _audit_worker(item):
             oa = (ra.get("outcome"), sorted(c for c, _ in ra.get("violations", ())), digest(_H.canon(wa, config)).hex())
             ob = (rb.get("outcome"), sorted(c for c, _ in rb.get("violations", ())), digest(_H.canon(wb, config)).hex())
             if oa != ob:
-                bad.append({"config": config, "history_a": path_a, "history_b": path_b, "event": ev, "obs_a": oa, "obs_b": ob})
+                if rb.get("violations") or ra.get("violations"):
+                    side, path = (rb, path_b) if rb.get("violations") else (ra, path_a)
+                    for clause, detail in side["violations"][:3]:
+                        viol.append((clause, {"config": config, "events": path + [ev]}, detail))
+                else:
+                    bad.append({"config": config, "history_a": path_a, "history_b": path_b, "event": ev, "obs_a": oa, "obs_b": ob})
     except BaseException:
         bad.append({"error": traceback.format_exc()})
-    return 1, n, bad
+    return 1, n, bad, viol
 
 
 def explore(h, tier):
@@ -294,7 +303,9 @@ def explore(h, tier):
         frontier.append((ci, [], pickle.dumps(w, protocol=pickle.HIGHEST_PROTOCOL)))
     capped = None
     levels = []
-    audit = tier == "thorough" or bool(os.environ.get("VERIF_AUDIT"))
+    audit = not os.environ.get("VERIF_NOAUDIT")
+    npairs_max = AUDIT_PAIRS if tier == "thorough" or os.environ.get("VERIF_AUDIT") else AUDIT_PAIRS_QUICK
+    reps = {}  # canonical key -> (path, blob) of the history that represents it (levels <= 2)
     fresh = tier == "thorough" or bool(os.environ.get("VERIF_FRESH")) or bool(getattr(h, "fresh_quick", False))
     merged = []
     audit_result = {"pairs": 0, "expansions": 0, "mismatches": 0}
@@ -323,10 +334,19 @@ def explore(h, tier):
                         seen.add(key)
                         this_level[key] = len(newfrontier)
                         newfrontier.append((ci, path, blob))
-                    elif audit and level < 2 and key in this_level and len(merged) < AUDIT_PAIRS:
-                        rep = newfrontier[this_level[key]]
-                        if jdump(rep[1]) != jdump(path):
-                            merged.append((ci, configs[ci], rep[1], rep[2], path, blob))
+                        if audit and level <= 2 and len(reps) < REPS_MAX:
+                            reps[key] = (path, blob)
+                    elif audit and key in reps and jdump(reps[key][0]) != jdump(path):
+                        # a different history (of the same or a greater length) reaches a state that is already
+                        # represented: keep the npairs_max such histories with the smallest digest (a bounded,
+                        # schedule-independent choice) for the audit below
+                        item = (digest(jdump([ci, path]).encode()), ci, path, blob, key)
+                        if len(merged) < npairs_max:
+                            merged.append(item)
+                            merged.sort()
+                        elif item[0] < merged[-1][0]:
+                            merged[-1] = item
+                            merged.sort()
                 if BUDGET_S and time.time() - t0 > BUDGET_S and done < len(tasks):
                     capped = f"VERIF_BUDGET_S={BUDGET_S} hit at level {level} after {done}/{len(tasks)} tasks"
                     break
@@ -343,11 +363,16 @@ def explore(h, tier):
                 break
         # canonicalisation audit: histories that were merged into one canonical state must have the same futures
         if audit and merged and not capped:
-            it = pool.imap_unordered(_audit_worker, merged, chunksize=1) if pool else map(_audit_worker, merged)
-            for npairs, nexp, bad in it:
+            items = [(ci, configs[ci], reps[key][0], reps[key][1], path, blob) for _, ci, path, blob, key in merged]
+            audit_result["cross_level_pairs"] = sum(1 for a in items if len(a[2]) != len(a[4]))
+            it = pool.imap_unordered(_audit_worker, items, chunksize=1) if pool else map(_audit_worker, items)
+            for npairs, nexp, bad, viol in it:
                 audit_result["pairs"] += npairs
                 audit_result["expansions"] += nexp
                 audit_result["mismatches"] += len(bad)
+                audit_result["violations_on_merged_histories"] = audit_result.get("violations_on_merged_histories", 0) + len(viol)
+                for clause, case, detail in viol:
+                    total.violation(clause, case, detail)
                 for b in bad[:2]:
                     total.violations.append(("HARNESS-ERROR", {"audit": b}, "canonicalisation audit: merged states have different futures: " + jdump(b)[:1500]))
     finally:
@@ -355,7 +380,7 @@ def explore(h, tier):
             pool.close()
             pool.join()
     cov = {
-        "canonicalisation_audit": audit_result if audit else "not run in this tier",
+        "canonicalisation_audit": dict(audit_result, rule=f"the {npairs_max} histories with the smallest digest among those merged into an already represented state (representatives of levels <= 2) are expanded with the full alphabet next to the representative") if audit else "switched off (VERIF_NOAUDIT)",
         "fresh_object_replay": f"every transition up to level {FRESH_MAX_LEVEL if tier == 'thorough' else 1} re-executed from a fresh world" if fresh else "not in this tier (states restored from pickles, caches cleared before every transition)",
         "states": len(seen),
         "transitions": total.transitions,
